@@ -15,15 +15,24 @@ LEVEL = 'proof'
 LEVEL_TEXT = ('Unbounded Lean theorems: (0) ALL SIZES of the hand-modelled surface codes '
               '(Properties/C17<Class>.lean): Toric2DCode (Lx,Ly>=2), Planar2DCode and RotatedPlanar2DCode (Lx,Ly>=1) have '
               'IsDistance n H (min Lx Ly), Toric3DCode and XCubeCode (Lx,Ly,Lz>=2) have IsDistance n H (min Lx Ly Lz), Planar3DCode '
-              'and RotatedPlanar3DCode (Lx,Ly,Lz>=1) have IsDistance n H (min Lx (Ly*Lz)), on the matrices assembled from the '
+              'and RotatedPlanar3DCode (Lx,Ly,Lz>=1) have IsDistance n H (min Lx (Ly*Lz)), RhombicToricCode (all L_i even >=2) has '
+              'IsDistance n H (min Lx Ly Lz), RhombicPlanarCode (Lx,Ly>=2, Lz>=1) has IsDistance n H (min (Lx*Ly+(Lx-1)*(Ly-1)) Lz) '
+              '(the weight of the X sheet or the height, NOT min(Lx,Ly,Lz): RhombicPlanarCode(2,2,7).d = 5 and that is the true '
+              'distance), Color488Code (Lx=Ly=L>=1) has IsDistance (8L^2) H (2L), on the matrices assembled from the '
               'hand-written lattice model, and code.d (min weight over the listed logicals) equals that value, for every '
               'lattice size - upper bound: a listed logical; lower bound: packing with lattice translates (consecutive '
               'translates of a logical line differ by the row of generators between them, consecutive translates of a logical '
               'plane by the slab of vertex generators between them, so any operator commuting with all generators meets every '
               'translate; X-cube: Z lines are rigid, a line is equivalent to the product of three lines through the other '
-              'corners of a rectangle of rows of cubes, which still gives min(L) disjoint representatives); (0b) DEFORMED CODES: a '
+              'corners of a rectangle of rows of cubes, which still gives min(L) disjoint representatives; rhombic codes: an X '
+              'sheet has L translates along its normal through the slab of COLOURED cubes between them - every in-plane edge '
+              'lies on one coloured cube of the slab, every edge across on two (checkerboard slab lemma, periodic and open) - '
+              'a Z line of the toric code moves through rows of planar stars (products of two triangles of a vertex), the Z '
+              'stack of the planar code is equivalent to every vertical stack of x- or y-edges because the z-legs of a '
+              'vertical stack of triangles cancel in pairs; 4.8.8 colour code: a column of qubits has 2L translates, through '
+              'the column of squares or the column of octagons and squares between them); (0b) DEFORMED CODES: a '
               'per-qubit permutation of {X,Y,Z} preserves weight, commutation and span, hence IsDistance and code.d '
-              '(distance_deformation_invariant, every n, H, d); so every deformed code of these seven classes (every name/axis '
+              '(distance_deformation_invariant, every n, H, d); so every deformed code of these ten classes (every name/axis '
               'get_deformation accepts) has the same distance, for every size (distance_deformed); (1) distance criterion and '
               'packing bound for every valid [[n,k]] code (a '
               'non-trivial logical anticommutes with some listed logical, by C04; d pairwise disjoint representatives '
@@ -46,9 +55,9 @@ LEVEL_NOTE = ('trusted: Lean kernel + standard axioms; translator harness/regen_
               'the distance is proved in general (distance_deformation_invariant), so for deformed codes the native '
               'evaluation is redundant with the undeformed instance theorem. All-sizes (unbounded in L) distance '
               'theorems exist for Toric2DCode, Planar2DCode, RotatedPlanar2DCode, Toric3DCode, Planar3DCode, '
-              'RotatedPlanar3DCode, XCubeCode only '
+              'RotatedPlanar3DCode, XCubeCode, RhombicToricCode, RhombicPlanarCode, Color488Code only '
               '(undeformed and deformed; trusted in addition: the correspondence harness tying the hand-written '
-              'lattice models to the classes, as in C01); the other 9 classes are covered by the bounded instance '
+              'lattice models to the classes, as in C01); the other 6 classes are covered by the bounded instance '
               'theorems (named ..._partial).')
 TECHNIQUE = ('Lean 4 proof: certificate-checker soundness (unbounded) + kernel-checked instance theorems over tables '
              'and certificates regenerated from the source; differential correspondence of code.d; independent '
@@ -66,7 +75,7 @@ RULE = ('stream 1: one `dist` op per (class, size, deformation): model distance 
 
 # all-sizes distance theorems of the hand-modelled classes (built and axiom-audited with C17)
 ALLSIZES_CLASSES = ['Toric2DCode', 'Planar2DCode', 'RotatedPlanar2DCode', 'Toric3DCode', 'Planar3DCode',
-                    'RotatedPlanar3DCode', 'XCubeCode', 'RhombicToricCode', 'RhombicPlanarCode']
+                    'RotatedPlanar3DCode', 'XCubeCode', 'RhombicToricCode', 'RhombicPlanarCode', 'Color488Code']
 PROPERTY_MODULES = ['PanqecVerif.Properties.C17'] + [f'PanqecVerif.Properties.C17{c}' for c in ALLSIZES_CLASSES]
 
 # instances of the regenerated tables for which no certificate is expected (see LEVEL_NOTE)
